@@ -460,12 +460,22 @@ def run_recorded(cfg):
     return sim, rec.events, sim.interventions[0].snaps
 
 
-def attach_stated(sim, cfg, events):
+def stated_of_impl(ncfg):
+    """ `stated_of` for a network entry in harness/impl.py format (the scenario zoo): RandomNet `dur` is a plain number in the
+        network's unit, ErdosRenyiNet is built with its default `dur = 0`, the partnership classes draw from a lognormal """
+    t = ncfg['type']
+    if t == 'random': return ('plain', float(ncfg.get('dur', 0)))
+    if t == 'erdosrenyi': return ('plain', 0.0)
+    if t in ('mf', 'msm', 'embedding'): return ('drawn', None)
+    return None
+
+
+def attach_stated(sim, cfg, events, stated_fn=None):
     """ For every `append` of a duration-carrying network: the `dur` column the configuration STATES for the new edges
         (`stated_col`), derived from the user's configuration (plain number / constant) or from the draws of the network's
         duration distribution recorded since the network's previous append — never from the appended column itself. """
     if len(sim.networks) != len(cfg['networks']): return
-    stated = {net.name: stated_of(n) for net, n in zip(sim.networks.values(), cfg['networks'])}
+    stated = {net.name: (stated_fn or stated_of)(n) for net, n in zip(sim.networks.values(), cfg['networks'])}
     last_draw = {}
     for ev in events:
         if ev['op'] == 'durdraw':
@@ -481,6 +491,19 @@ def attach_stated(sim, cfg, events):
                 ev['stated_col'] = np.full(n, val, dtype=float)
             else:
                 ev['stated_col'] = last_draw.pop(ev['net'], None)   # None: no draw of the duration parameter preceded this append
+
+
+def run_recorded_impl(cfg):
+    """ `run_recorded` for a configuration in harness/impl.py format (the shared scenario zoo): same recorder, same probe
+        (appended after the configuration's own interventions, i.e. it still sees the networks as transmission will) """
+    from harness import impl
+    with Recorder() as rec:
+        sim = impl.build_sim(cfg, extra_interventions=[make_probe()])
+        sim.init()
+        sim.run()
+    attach_stated(sim, cfg, rec.events, stated_of_impl)
+    probe = [iv for iv in sim.interventions.values() if type(iv).__name__ == 'Probe'][0]
+    return sim, rec.events, probe.snaps
 
 
 # ---------------------------------------------------------------------------
@@ -963,9 +986,15 @@ def oracle_lifetimes(events, snaps, cfg, alt=False):
     return fails
 
 
-def run_oracle(cfg):
+_ZOO_RUNS = {}   # zoo entry -> (events, snaps) recorded by correspond() in this process, reused by search()
+
+
+def run_oracle(cfg, impl_format=False, recorded=None):
     """ -> list of (signature, what) on the real code """
-    sim, events, snaps = run_recorded(cfg)
+    if recorded is not None:
+        events, snaps = recorded
+    else:
+        sim, events, snaps = run_recorded_impl(cfg) if impl_format else run_recorded(cfg)
     fails = []
     for s in snaps:
         fails += oracle_snapshot(s, None)
@@ -1117,6 +1146,33 @@ def correspond(ctx):
         for it in items:
             if len(lines) >= max_lines: break
             lines.append(it[0]); checks.append(it[1:])
+    # the shared scenario zoo: the recorded operations of every entry through the model (a sample per entry, spread evenly over the run)
+    from harness import zoo
+    zoo_lines = 0; zoo_cap = ctx.budget(700, 5000); per_entry = ctx.budget(14, 100)
+    for name, cfg in zoo.configs():
+        try:
+            sim, events, snaps = run_recorded_impl(cfg)
+            _ZOO_RUNS[name] = (events, snaps)
+            items = []
+            for j, ev in enumerate(events):
+                if ev['op'] == 'snap': continue
+                covered[ev['cls'] + '.' + ev['op']] = covered.get(ev['cls'] + '.' + ev['op'], 0) + 1
+                size = len(ev['pre']['p1']) if 'p1' in ev.get('pre', {}) else 0
+                if size > 1500 or not (j < 12 or j % 4 == 0): continue
+                for line, chk in event_lines(ev, variant_of):
+                    items.append((line, chk, dict(kind='zoo', zoo=name, cfg=cfg, op=ev['op'], net=ev['cls'])))
+            for i, sn in enumerate(snaps):
+                if 'table' not in sn or len(sn['table']['p1']) > 1500 or i % 3: continue
+                ln = snap_line(sn)
+                if ln: items.append((ln, ('snap', sn['cls'], False), dict(kind='zoo', zoo=name, cfg=cfg, op='check', net=sn['cls'], ti=sn['ti'])))
+        except Exception as e:
+            ctx.count('zoo_exceptions'); ctx.notes['last_zoo_exception'] = f'{name}: {type(e).__name__}: {e}'; continue
+        ctx.count('zoo_runs')
+        if len(items) > per_entry:   # an even spread over the run, so that late operations (after deaths / births) are included
+            items = [items[(i * len(items)) // per_entry] for i in range(per_entry)]
+        for it in items:
+            if zoo_lines >= zoo_cap: break
+            lines.append(it[0]); checks.append(it[1:]); zoo_lines += 1
     # direct API scenarios
     for k in range(ctx.budget(10, 60)):
         spec = gen_direct(ctx.rng)
@@ -1176,11 +1232,11 @@ def correspond(ctx):
             if exp_active and bits.get('alive') != '1': bad.append('an endpoint is not alive')
             if kind in PARTNERSHIP and bits.get('mono') != '1': bad.append('an agent is in two concurrent edges')
             if bad:
-                ctx.broke('correspondence', 'C14.invariant', f"{cls} at ti={data.get('ti')}: the model's invariant check fails on the observed table: {'; '.join(bad)}", data=data)
+                ctx.broke('correspondence', 'C14.invariant', (f"[zoo:{data['zoo']}] " if data.get('zoo') else '') + f"{cls} at ti={data.get('ti')}: the model's invariant check fails on the observed table: {'; '.join(bad)}", data=data)
             continue
         d = chk(ml)
         if d:
-            ctx.broke('correspondence', 'C14.' + opname, f"{data.get('net')}.{data.get('op')}: {d}", data=dict(line=line[:3000], **data))
+            ctx.broke('correspondence', 'C14.' + opname, (f"[zoo:{data['zoo']}] " if data.get('zoo') else '') + f"{data.get('net')}.{data.get('op')}: {d}", data=dict(line=line[:3000], **data))
     ctx.notes['operations_covered'] = covered
     # cross-check the extracted variant flags dynamically: with no deaths spec and asis agree, so compare on a run with deaths
     return
@@ -1208,6 +1264,7 @@ def search(ctx):
             if key in seen: continue
             seen.add(key)
             ctx.fail(sig, what, dict(kind='sim', cfg=cfg))
+    search_zoo(ctx)
     for k in range(ctx.budget(12, 60)):
         spec = gen_direct(ctx.rng)
         try:
@@ -1238,6 +1295,23 @@ def search(ctx):
                 pass
 
 
+def search_zoo(ctx):
+    """ every oracle of this property over every entry of the shared scenario zoo (harness/zoo.py), on every run """
+    from harness import zoo
+    for name, cfg in zoo.configs():
+        try:
+            fails = run_oracle(cfg, impl_format=True, recorded=_ZOO_RUNS.pop(name, None))
+        except Exception as e:
+            ctx.count('zoo_exceptions'); ctx.notes['last_zoo_exception'] = f'{name}: {type(e).__name__}: {e}'; continue
+        ctx.count('zoo_runs')
+        seen = set()
+        for sig, what in fails:
+            key = tuple(sorted(sig.items()))
+            if key in seen: continue
+            seen.add(key)
+            ctx.fail(sig, f'[zoo:{name}] ' + what, dict(kind='zoo', cfg=cfg))
+
+
 def replay_fails(data):
     if data.get('kind') == 'sim':
         return run_oracle(data['cfg'])
@@ -1245,6 +1319,8 @@ def replay_fails(data):
         return direct_scenario(data['spec'])['fails']
     if data.get('kind') == 'direct-mat':
         return maternal_direct(data['spec'])['fails']
+    if data.get('kind') == 'zoo':
+        return run_oracle(data['cfg'], impl_format=True)
     return []
 
 
